@@ -368,7 +368,46 @@ def m_iter_next(ex, st, callee, args, dest_ty):
 
 
 def m_iter_zip(ex, st, callee, args, dest_ty):
-    yield st, Opaque("Zip", info=(args[0], args[1]))
+    other = args[1]
+    if isinstance(other, Ref):   # zip(&vec): IntoIterator for a reference to a vector / slice
+        v = deref(ex, st, other)
+        if not isinstance(v, VecV):
+            raise MirUnsupported("zip with %r" % (v,))
+        base = other
+        while isinstance(ex.read(st, base.cell, base.projs), Ref):
+            base = ex.read(st, base.cell, base.projs)
+        other = Opaque("SliceIter", info=(base, 0))
+    yield st, Opaque("Zip", info=(args[0], other))
+
+
+def m_iter_all_any(ex, st, callee, args, dest_ty):
+    """Iterator::all / any(closure) over the modelled iterators: short-circuit evaluation, the closure is the real code"""
+    from mir.models import call_fn_value
+    want_all = "::all::<" in callee
+    r = args[0]
+    it = ex.read(st, r.cell, r.projs) if isinstance(r, Ref) else r
+    f = args[1]
+
+    def rec(st, cur):
+        for st2, it2, item in iter_next(ex, st, cur):
+            if ex.concrete(item.disc) == 0:
+                if isinstance(r, Ref):
+                    ex.write(st2, r.cell, r.projs, it2)
+                yield st2, mk_bool(want_all)
+                continue
+            for o in call_fn_value(ex, st2, f, [item.alts["Some"][0]]):
+                if o.kind != "return":
+                    yield o
+                    continue
+                b = o.value
+                stop = z3.Not(b.e) if want_all else b.e
+                for st3 in ex.branch(o.st, stop):
+                    if isinstance(r, Ref):
+                        ex.write(st3, r.cell, r.projs, it2)
+                    yield st3, mk_bool(not want_all)
+                for st3 in ex.branch(o.st, z3.Not(stop)):
+                    yield from rec(st3, it2)
+    yield from rec(st, it)
 
 
 def m_iter_skip(ex, st, callee, args, dest_ty):
@@ -608,6 +647,7 @@ VALUE_MODELS = [
     (R(r"^BTreeMap::<.*>::insert$"), m_btree_insert),
     (R(r"^<(std::slice::Iter(Mut)?<.*>|Zip<.*>|std::collections::btree_map::Iter<.*>|Enumerate<.*>) as Iterator>::next$"), m_iter_next),
     (R(r"^<std::slice::Iter(Mut)?<.*> as Iterator>::zip::<.*>$"), m_iter_zip),
+    (R(r"^<(std::slice::Iter(Mut)?<.*>|Zip<.*>|Enumerate<.*>) as Iterator>::(all|any)::<.*>$"), m_iter_all_any),
     (R(r"^<std::slice::Iter(Mut)?<.*> as Iterator>::enumerate$"), m_iter_enumerate),
     (R(r"^<std::slice::Iter(Mut)?<.*> as Iterator>::skip$"), m_iter_skip),
     (R(r"^<(std::iter::)?Skip<.*> as IntoIterator>::into_iter$"), m_into_iter_id),
